@@ -298,7 +298,7 @@ def validate_trace(cx, wd, lines, mode, inv):
     while lo > 0 and '"ev":"reset"' not in lines[lo]:
         lo -= 1
     ev = json.loads(lines[k - 1])
-    return {"mode": mode, "event": ev, "index_in_run": k - lo, "invariant": r.violated,
+    return {"mode": mode, "seed": vf.seed(), "event": ev, "index_in_run": k - lo, "invariant": r.violated,
             "run_prefix": [json.loads(x) for x in lines[lo:k]][-6000:], "tlc_out": r.stdout_path}
 
 
@@ -385,7 +385,10 @@ def do_replay_file(cx, binary, path):
     wd = cx.sub("replayfile")
     for ex in rep["examples"]:
         c = ex["case"]
-        if "bs" in c:
+        if rep["class"].startswith("sweep:"):
+            job_sweep(cx, binary, 4)
+            break
+        elif "bs" in c:
             p = wd + "/c.jsonl"
             vf.jsonl_write(p, [c])
             rc, out, err = vf.run_driver(binary, ["char6"], stdin_path=p, timeout=600)
@@ -396,10 +399,11 @@ def do_replay_file(cx, binary, path):
             rc, out, err = vf.run_driver(binary, ["replay", "-stall", "10000"], stdin_path=p, timeout=600)
             cx.driver_out(rc, out, err, "replay")
         elif "run_prefix" in c:
-            lines = [json.dumps(e, separators=(",", ":")) + "\n" for e in c["run_prefix"]]
-            rej = validate_trace(cx, wd + "/tr", lines, c["mode"], "ISafe" if c["mode"] == "record" else "MonSafe")
-            if rej:
-                cx.verdict.disagree(rep["class"], rej, "recorded run still rejected by InternTrace.tla")
+            # a recorded run cannot be re-executed: repeat the workload of that mode (same seed) on the
+            # current code and validate the new traces
+            os.environ["VERIF_SEED"] = str(c.get("seed", vf.seed()))
+            job_trace(cx, binary, c["mode"], 60, 10, 2, 16, 2, c.get("seed", vf.seed()))
+            break
         elif c.get("mode") in ("record", "api"):
             # race / crash reports have no input to replay: repeat the concurrent runs of that mode
             job_trace(cx, binary, c["mode"], 40, 10, 2, 16, 2, vf.seed())
@@ -453,8 +457,8 @@ def run(pid, tier, replay=None):
             submit("replaysim", job_replay, cx, race_bin, "rp_sim", "1, 2, 3", 2, "Pool3", ALL_OPS, 0,
                    simulate=150, depth=80)
             submit("record", lambda: holder.__setitem__("chunks", job_trace(
-                cx, race_bin, "record", 24, 8, 2, 16, 2, seed)))
-            submit("api", job_trace, cx, race_bin, "api", 120, 10, 2, 16, 2, seed)
+                cx, race_bin, "record", 24, 8, 2, 16, 1, seed)))
+            submit("api", job_trace, cx, race_bin, "api", 120, 10, 2, 16, 1, seed)
         errors = []
         for name, fut in jobs:
             try:
@@ -463,6 +467,8 @@ def run(pid, tier, replay=None):
                 errors.append("%s: %s" % (name, e))
     if errors and not cx.verdict.violations:
         raise vf.MachineryError("; ".join(errors)[:4000])
+    for e in errors:
+        print("NOTE: machinery error next to the violations below: " + e[:600], flush=True)
     if thorough and not cx.verdict.violations:
         selftests(cx, race_bin, holder["chunks"], holder["casefile"], holder["schedfile"])
     rc = cx.verdict.finish()
